@@ -139,7 +139,7 @@ pub struct Meta {
 pub enum Xform {
     /// insert a box of `typ` with `len` payload bytes as child number `pos` of the node at `path`
     /// (empty path = top level)
-    Insert { path: Vec<usize>, pos: usize, typ: Cc, len: u16 },
+    Insert { path: Vec<usize>, pos: usize, typ: Cc, len: u16, #[serde(default)] large: bool },
     Large { path: Vec<usize> },
     Spare { path: Vec<usize>, n: u8 },
     Swap { path: Vec<usize>, i: usize, j: usize },
@@ -392,7 +392,7 @@ pub fn meta_node(me: &Meta) -> Node {
             for (t, p) in &it.post {
                 parts.push(Node::leaf_cc(*t, p.clone()));
             }
-            ch.push(Node { typ: it.typ, large: false, parts: parts.into_iter().map(Part::Child).collect(), spare: vec![] });
+            ch.push(Node { typ: it.typ, large: false, parts: parts.into_iter().map(Part::Child).collect(), spare: vec![], tag: 0 });
         }
         Node::container("ilst", ch)
     });
@@ -608,56 +608,144 @@ pub fn node_at<'a>(top: &'a mut Vec<Node>, path: &[usize]) -> Option<&'a mut Nod
     Some(cur)
 }
 
+/// Apply layout transformations. All paths and child indices refer to the tree *before* any
+/// transformation: they are first resolved to node identities (tags assigned in DFS order) and the
+/// operations are then carried out by identity, so they cannot disturb each other.
 pub fn apply_xforms(top: &mut Vec<Node>, xforms: &[Xform]) {
-    // Paths refer to the tree *before* any transformation: apply Large/Spare first (shape-preserving),
-    // then swaps, then inserts in descending position order per parent so earlier indices stay valid.
+    if xforms.is_empty() {
+        return;
+    }
+    fn number(n: &mut Node, next: &mut u32) {
+        n.tag = *next;
+        *next += 1;
+        for c in n.children_mut() {
+            number(c, next);
+        }
+    }
+    let mut next = 1u32;
+    for n in top.iter_mut() {
+        number(n, &mut next);
+    }
+    fn tag_at(top: &[Node], path: &[usize]) -> Option<u32> {
+        let mut cur = top.get(*path.first()?)?;
+        for i in &path[1..] {
+            cur = cur.children().nth(*i)?;
+        }
+        Some(cur.tag)
+    }
+    fn child_tag(top: &[Node], path: &[usize], i: usize) -> Option<u32> {
+        if path.is_empty() {
+            top.get(i).map(|n| n.tag)
+        } else {
+            let mut cur = top.get(path[0])?;
+            for k in &path[1..] {
+                cur = cur.children().nth(*k)?;
+            }
+            cur.children().nth(i).map(|n| n.tag)
+        }
+    }
+    enum Op {
+        Large(u32),
+        Spare(u32, u8),
+        /// parent tag (0 = top level), tag of the child to insert before (0 = append)
+        Insert(u32, u32, Cc, u16, bool),
+        Swap(u32, u32, u32),
+    }
+    let mut ops = Vec::new();
     for x in xforms {
         match x {
             Xform::Large { path } => {
-                if let Some(n) = node_at(top, path) {
-                    n.large = true;
+                if let Some(t) = tag_at(top, path) {
+                    ops.push(Op::Large(t));
                 }
             }
             Xform::Spare { path, n } => {
-                if let Some(node) = node_at(top, path) {
-                    node.spare = (0..*n).map(|i| 0xC0 | (i & 0xf)).collect();
+                if let Some(t) = tag_at(top, path) {
+                    ops.push(Op::Spare(t, *n));
                 }
             }
-            _ => {}
-        }
-    }
-    let mut inserts: Vec<&Xform> = xforms.iter().filter(|x| matches!(x, Xform::Insert { .. })).collect();
-    // deeper paths first, then higher positions first
-    inserts.sort_by(|a, b| {
-        let (pa, posa) = if let Xform::Insert { path, pos, .. } = a { (path, pos) } else { unreachable!() };
-        let (pb, posb) = if let Xform::Insert { path, pos, .. } = b { (path, pos) } else { unreachable!() };
-        pb.len().cmp(&pa.len()).then(pb.cmp(pa)).then(posb.cmp(posa))
-    });
-    // swaps are applied after inserts would shift indices, so do swaps before inserts
-    for x in xforms {
-        if let Xform::Swap { path, i, j } = x {
-            if path.is_empty() {
-                if *i < top.len() && *j < top.len() {
-                    top.swap(*i, *j);
+            Xform::Insert { path, pos, typ, len, large } => {
+                let parent = if path.is_empty() { Some(0) } else { tag_at(top, path) };
+                if let Some(p) = parent {
+                    ops.push(Op::Insert(p, child_tag(top, path, *pos).unwrap_or(0), *typ, *len, *large));
                 }
-            } else if let Some(n) = node_at(top, path) {
-                let idx: Vec<usize> = n.parts.iter().enumerate().filter(|(_, p)| matches!(p, Part::Child(_))).map(|(k, _)| k).collect();
-                if *i < idx.len() && *j < idx.len() {
-                    n.parts.swap(idx[*i], idx[*j]);
+            }
+            Xform::Swap { path, i, j } => {
+                let parent = if path.is_empty() { Some(0) } else { tag_at(top, path) };
+                if let (Some(p), Some(a), Some(b)) = (parent, child_tag(top, path, *i), child_tag(top, path, *j)) {
+                    ops.push(Op::Swap(p, a, b));
                 }
             }
         }
     }
-    for x in inserts {
-        if let Xform::Insert { path, pos, typ, len } = x {
-            let filler: Vec<u8> = (0..*len).map(|i| 0xD0 | (i as u8 & 0xf)).collect();
-            let node = Node::leaf_cc(*typ, filler);
-            if path.is_empty() {
-                let p = (*pos).min(top.len());
-                top.insert(p, node);
-            } else if let Some(n) = node_at(top, path) {
-                let p = (*pos).min(n.n_children());
-                n.insert_child(p, node);
+    fn find<'a>(nodes: &'a mut [Node], tag: u32) -> Option<&'a mut Node> {
+        for n in nodes.iter_mut() {
+            if n.tag == tag {
+                return Some(n);
+            }
+            let mut kids: Vec<&mut Node> = n.children_mut().collect();
+            for k in kids.iter_mut() {
+                if k.tag == tag {
+                    // re-borrow through recursion below
+                }
+            }
+            drop(kids);
+            if let Some(f) = find_in(n, tag) {
+                return Some(f);
+            }
+        }
+        None
+    }
+    fn find_in<'a>(n: &'a mut Node, tag: u32) -> Option<&'a mut Node> {
+        for p in n.parts.iter_mut() {
+            if let Part::Child(c) = p {
+                if c.tag == tag {
+                    return Some(c);
+                }
+                if let Some(f) = find_in(c, tag) {
+                    return Some(f);
+                }
+            }
+        }
+        None
+    }
+    for op in ops {
+        match op {
+            Op::Large(t) => {
+                if let Some(n) = find(top, t) {
+                    n.large = true;
+                }
+            }
+            Op::Spare(t, k) => {
+                if let Some(n) = find(top, t) {
+                    n.spare = (0..k).map(|i| 0xC0 | (i & 0xf)).collect();
+                }
+            }
+            Op::Insert(parent, before, typ, len, large) => {
+                let filler: Vec<u8> = (0..len).map(|i| 0xD0 | (i as u8 & 0xf)).collect();
+                let mut node = Node::leaf_cc(typ, filler);
+                node.large = large;
+                if parent == 0 {
+                    let at = top.iter().position(|n| n.tag == before && before != 0).unwrap_or(top.len());
+                    top.insert(at, node);
+                } else if let Some(p) = find(top, parent) {
+                    let at = p.parts.iter().position(|x| matches!(x, Part::Child(c) if c.tag == before && before != 0)).unwrap_or(p.parts.len());
+                    p.parts.insert(at, Part::Child(node));
+                }
+            }
+            Op::Swap(parent, a, b) => {
+                if parent == 0 {
+                    let (ia, ib) = (top.iter().position(|n| n.tag == a), top.iter().position(|n| n.tag == b));
+                    if let (Some(ia), Some(ib)) = (ia, ib) {
+                        top.swap(ia, ib);
+                    }
+                } else if let Some(p) = find(top, parent) {
+                    let ia = p.parts.iter().position(|x| matches!(x, Part::Child(c) if c.tag == a));
+                    let ib = p.parts.iter().position(|x| matches!(x, Part::Child(c) if c.tag == b));
+                    if let (Some(ia), Some(ib)) = (ia, ib) {
+                        p.parts.swap(ia, ib);
+                    }
+                }
             }
         }
     }
